@@ -470,3 +470,47 @@ Print Assumptions c04_udp_identical_when_fits_partial.
 Print Assumptions c04_writer_limit_monotone.
 Print Assumptions c04_oracle_tc_shape.
 Print Assumptions c04_oracle_sizes_and_identity.
+
+(* ---- TSIG-bearing responses and the limit (Model/ServerWT.v) ----
+   c04_tsig_within_limit_partial: whenever the response of the abstract server model carries TSIG settings, the
+   octets the extended composed model returns for it - header, question, OPT, TSIG record, written by the byte-level
+   Writer model - are no longer than the response's limit, and that limit is the one c04_limit_value describes
+   (65535 / 512, or the requestor's payload size clamped to [512, server size]).
+   c04_tsig_or_tc: what the code does when OPT + TSIG do not fit (set_tsig_or_truncate, on the model of
+   Model/Server.v): the TSIG settings are installed only if cursor + TSIG length <= available (= limit - 11 with an
+   OPT), otherwise the response keeps its RCODE and OPT, gets TC, and carries no TSIG - never a panic; such a
+   response has no TSIG settings and is produced in octets by ServerW.serialize_resp (c01_no_panic, c02_wellformed).
+   PARTIAL: [unverified] verifiers only (BADKEY / BADSIG / FORMERR classes). *)
+From QV Require Import Model.Server Model.ServerW Model.ServerWT Proofs.ServerP Proofs.ServerLimitP Proofs.ComposeTsigTopP.
+
+Theorem c04_tsig_within_limit_partial : forall hmac zones negttl answer verify cfg buf req wa t,
+  ServerP.wf_cfg cfg -> length buf = Server.c_buflen cfg -> (Server.c_now cfg < 281474976710656)%N -> unverified verify -> wf_bytes req ->
+  Server.handle_message answer verify cfg req = Ok (Some wa) -> Server.w_tsig wa = Some t ->
+  exists len b,
+    handle_message_wt hmac zones negttl answer verify cfg buf req = Ok (Some (ROctets len b)) /\
+    len <= Server.w_limit wa /\ ServerLimitP.lim_ok cfg req wa.
+Proof.
+  intros hmac zones negttl answer verify cfg buf req wa t Hcfg Hbuf Hnow Hunv Hwf HA Et.
+  destruct (tsig_response_octets hmac zones negttl answer verify cfg buf Hcfg Hbuf Hnow Hunv req wa t Hwf HA Et)
+    as (len & b & f & E & Hl & L & _).
+  exists len, b. auto.
+Qed.
+
+Theorem c04_tsig_or_tc : forall w t,
+  Server.w_tsig w = None ->
+  (Server.w_avail w < Server.w_cursor w + Server.t_reserved t ->
+     Server.set_tsig_or_truncate w t = (Server.set_tc w, false)) /\
+  (Server.w_cursor w + Server.t_reserved t <= Server.w_avail w -> (Server.w_arcount w < 65535)%N ->
+     snd (Server.set_tsig_or_truncate w t) = true /\
+     Server.w_tsig (fst (Server.set_tsig_or_truncate w t)) = Some t /\
+     Server.w_tc (fst (Server.set_tsig_or_truncate w t)) = Server.w_tc w /\
+     Server.w_avail (fst (Server.set_tsig_or_truncate w t)) = Server.w_avail w - Server.t_reserved t).
+Proof.
+  intros w t Hn. unfold Server.set_tsig_or_truncate, Server.set_tsig. rewrite Hn. split.
+  - intros H. apply Nat.ltb_lt in H. rewrite H. reflexivity.
+  - intros H Ha. apply Nat.ltb_ge in H. rewrite H.
+    destruct (65535 <=? Server.w_arcount w)%N eqn:X; [apply N.leb_le in X; lia|]. cbn. auto.
+Qed.
+
+Print Assumptions c04_tsig_within_limit_partial.
+Print Assumptions c04_tsig_or_tc.
